@@ -48,6 +48,7 @@ Bases ==
             UnknownLine(<< >>),
             UnknownLine(B(" a b c d e f")),
             UnknownLine(B("  two  spaces ")),
+            UnknownLine(B(" PROXY")),    \* the protocol's own vocabulary as free text
             UnknownLine(Pad(92)) >>      \* 107 bytes: the limit
     ELSE << TcpLine("TCP4", "1.2.3.4", "5.6.7.8", "0", "65535"),
             TcpLine("TCP4", "255.255.255.255", "0.0.0.0", "443", "80"),
@@ -60,6 +61,9 @@ Bases ==
             UnknownLine(B(" \n b")),
             UnknownLine(B("  two  spaces ")),
             UnknownLine(B(" h") \o EAcute \o B(" ") \o Euro),
+            UnknownLine(B(" PROXY")),
+            UnknownLine(B(" UNKNOWN UNKNOWN")),
+            UnknownLine(B(" x PROXY TCP4")),
             UnknownLine(Pad(90)),       \* 105 bytes
             UnknownLine(Pad(92)),       \* 107 bytes: the limit
             UnknownLine(Pad(93)) >>     \* 108 bytes: one too many (not well formed)
